@@ -239,6 +239,7 @@ HostForm(h) ==
             ELSE IF b \in InvalidV6 THEN "[v6bad]"
             ELSE IF V6Shape(b) THEN "[v6unlisted]" ELSE "[other]"
       [] h[1] = "[" -> "unclosed"
+      [] h \in ValidV6 -> "v6-unbracketed"
       [] OTHER -> "badchar"
 PortForm(p) ==
     CASE Len(p) = 0 -> "empty"
@@ -247,8 +248,9 @@ PortForm(p) ==
       [] Val(p) > 65535 -> ">65535"
       [] OTHER -> "ok"
 \* (host, port) as a reader would take them: the port is what follows the last colon outside brackets
-CandHost(s) == LET j == IF s[Len(s)] = "]" THEN 0 ELSE LastColon(s) IN IF j = 0 THEN s ELSE SubSeq(s, 1, j - 1)
-CandPort(s) == LET j == IF s[Len(s)] = "]" THEN 0 ELSE LastColon(s) IN IF j = 0 THEN <<"none">> ELSE SubSeq(s, j + 1, Len(s))
+CandSplit(s) == IF s[Len(s)] = "]" \/ s \in ValidV6 THEN 0 ELSE LastColon(s)      \* a bare IPv6 literal has no port
+CandHost(s) == LET j == CandSplit(s) IN IF j = 0 THEN s ELSE SubSeq(s, 1, j - 1)
+CandPort(s) == LET j == CandSplit(s) IN IF j = 0 THEN <<"none">> ELSE SubSeq(s, j + 1, Len(s))
 HostGood(f) == f \in {"ipv4", "dns", "[v6]", "[v6unlisted]"}
 \* full description, and the clauses at fault (those that fail even in the lax reading)
 SNForm(s) == IF Len(s) = 0 THEN "empty"
@@ -294,6 +296,7 @@ FreeAlphabet == {"@", "!", "$", ":", "[", "]", ".", "-", "7", "a", "A", "_", "="
 LocalAtoms == {"a", "A", "7", "_", "=", "/", "+", ".", "-", "sp", "nul", "u2", "u4", "[", "PAD"}
 HostAtoms  == {"a", "A", "7", ".", "-", "_", "u2", "PAD"}
 TailAtoms  == {":", "a", "]"}
+UnbracketedV6 == {"v6ok2", "v6ok5", "v6ok7", "v6ok11"}     \* IPv6 literals written without their brackets (never a host)
 
 \* atoms that may follow at a position, with the position they lead to and their cost in deviations
 Moves(p, k) ==
@@ -303,7 +306,7 @@ Moves(p, k) ==
                            \cup {[a |-> ":", to |-> "host", cost |-> 0]}
                            \cup (IF k = 0 THEN {[a |-> a, to |-> "end", cost |-> 1] : a \in OpaqueAtoms} ELSE {})
       [] p = "host"     -> (IF k < 2 THEN {[a |-> a, to |-> "host", cost |-> IF k = 0 /\ a = "a" THEN 0 ELSE 1] : a \in HostAtoms} ELSE {})
-                           \cup (IF k = 0 THEN {[a |-> a, to |-> "hostdone", cost |-> 1] : a \in {"ipv4", "ipv4big"}}
+                           \cup (IF k = 0 THEN {[a |-> a, to |-> "hostdone", cost |-> 1] : a \in {"ipv4", "ipv4big"} \cup UnbracketedV6}
                                                \cup {[a |-> "[", to |-> "v6", cost |-> 1]} ELSE {})
                            \cup {[a |-> ":", to |-> "port", cost |-> 0]}
       [] p = "v6"       -> {[a |-> a, to |-> "v6close", cost |-> 0] : a \in V6Atoms}
